@@ -97,6 +97,27 @@ def gen(tier, rng):
         cases.append(Case(sess.session(run_calls(p4, inputs)), sig=key + "\n#renumbered from %d step %d" % (start, step), tag="renumber",
                           meta=("same", pi, m4)))
         cases.append(Case(sess.compile_case(p4), sig="compile\n" + "\n".join(p4), tag="compile"))
+    # (c') references to the first line of the program, numbered 10 and numbered 0, behind statements that create local labels
+    FIRST = [
+        ["{a} Q9=Q9+1:PRINT \"t\";Q9", "{b} FOR I=1 TO 2:NEXT", "{c} IF Q9<3 THEN GOTO {a}", "{d} PRINT \"end\""],
+        ["{a} Q9=Q9+1:PRINT \"t\";Q9:IF Q9>1 THEN RETURN", "{b} IF Q9<2 THEN GOSUB {a}:PRINT \"back\"", "{c} WHILE Q9<3:Q9=Q9+1:WEND", "{d} IF Q9<5 THEN {a}"],
+        ["{a} READ D:PRINT D;:Q9=Q9+1", "{b} DATA 4,5", "{c} IF Q9=1 THEN RESTORE {a}:GOTO {a}", "{d} ON Q9 GOTO {a},{e},{a}", "{e} PRINT \"end\""],
+        ["{a} Q9=Q9+1:IF Q9>3 THEN END", "{b} FOR I=1 TO 2:ON I GOSUB {d},{d}:NEXT", "{c} GOTO {a}", "{d} PRINT \"s\";Q9;:RETURN"],
+        ["{a} PRINT \"t\";:Q9=Q9+1:IF Q9>2 THEN STOP", "{b} IF Q9=1 THEN {a} ELSE IF Q9=2 THEN GOSUB {d}", "{c} RUN {d}", "{d} PRINT \"r\";Q9:IF Q9=2 THEN RETURN ELSE END"],
+    ]
+    for ti, tmpl in enumerate(FIRST):
+        labels = "abcde"
+        def rend(start, step):
+            m = {lab: start + k * step for k, lab in enumerate(labels)}
+            return [l.format(**m) for l in tmpl], m
+        pb, mb = rend(10, 10)
+        pi = nprog + ti
+        cases.append(Case(sess.session(run_calls(pb, [])), sig="\n".join(pb), tag="base", meta=("base", pi, None)))
+        for start, step in ((0, 10), (0, 1), (0, 7)):
+            pz, mz = rend(start, step)
+            cases.append(Case(sess.session(run_calls(pz, [])), sig="\n".join(pb) + "\n#renumbered from %d step %d" % (start, step), tag="renumber",
+                              meta=("same", pi, {mz[l]: mb[l] for l in labels})))
+            cases.append(Case(sess.compile_case(pz), sig="compile\n" + "\n".join(pz), tag="compile"))
     # (d)/(e) direct statement lists
     for di in range(150 if tier == "quick" else 5000):
         P = gen_prog.Prog(rng, {"tron": False, "input": False})
